@@ -43,6 +43,19 @@ CHECKS = {
         technique="TLC-evaluated reference tables replayed into the code + recorded calls judged by TLC",
         design="4/C20",
     ),
+    "C05": dict(
+        specs=["PacketR.tla", "Packet.tla", "PacketIO.tla"],
+        text="TLC explores every interleaving of up to 2-3 tampering faults (bit flips in ciphertext/signature, truncation, "
+        "extension, wrong/missing HMAC key, wrong AES key) followed by the two-step receive path (authenticate, decrypt) and "
+        "checks verify-before-decrypt, rejection of every tampered packet and the exact round trip; the scenario table "
+        "(length x fault set x verify) and the framing table computed by TLC are replayed through encrypt_packet / "
+        "decrypt_packet / dumps / iter_encrypted_packets, with ciphertext and signature recomputed by a CBC built from the raw "
+        "AES block function and stdlib HMAC; random events are judged by TLC.",
+        note="AES/HMAC numerics are uninterpreted in TLA+ (trusted: pycryptodome ECB block function, hashlib). Fault positions "
+        "are classes (first/mid/last byte, bits 0 and 7) in the quick tier; thorough flips every bit.",
+        technique="TLA+ protocol model with fault actions checked by TLC; TLC-computed scenario table replayed; events judged by TLC",
+        design="4/C05",
+    ),
 }
 
 NOT_YET = "check not built yet in this round; planned in DESIGN.md section 4"
